@@ -15,6 +15,7 @@ import re
 import subprocess
 
 from . import lib
+from . import walkcommon as W
 
 META = {
     'level': 'other',
@@ -36,7 +37,12 @@ META = {
             'invalid UTF-8, empty, random bytes; for the zip-reading extractors also MEMBER-LEVEL mutations: valid archives whose metadata members are empty / '
             'truncated / stripped of their name or version headers / deflate-corrupted). Every (inventory, error) that Extract returns is then handed to the REAL '
             'filesystem.Run (one root, that file, that extractor) so that the engine\'s own consumption path runs on it. A recovered panic, a process-fatal runtime error, an Extract that has not returned 4 s after its '
-            '20 s context deadline, or more than 512 MiB of heap in use is reported as VIOLATION with a self-contained replayable case line.',
+            '20 s context deadline, or more than 512 MiB of heap in use is reported as VIOLATION with a self-contained replayable case line. '
+            'CONFIGURED LIMITS (c02gen -limits): java/archive is also run with SMALL MaxOpenedBytes / MaxZipDepth against compression bombs shaped to each code path (one big inner archive, '
+            'many siblings that parse, siblings that FAIL after being read, nested chains, forged uncompressed-size headers) and must return ErrExtractorMemoryLimitExceeded / the depth error exactly when a '
+            'reference accounting of the documented budget says so, with cumulative allocation <= 16 x limit + 8 MiB; every extractor with MaxFileSizeBytes must refuse a file one byte above the limit. '
+            'ENGINE HALF: the theorems C02_confined / C02_panic_only_from_extractor are about the walk-engine model; its tie to scalibr.Scan is the walkgen/drv_walk correspondence stream with erroring and '
+            'PANICKING table extractors, run here in small (coverage.engine_half) and in full by C01 / C09; the replay of every Extract result through the real filesystem.Run must make at least one Extract call (ec=0 is a harness fault).',
     'note': 'The fuzz loop is SEARCH SUPPORT, NOT PROOF (evidence: coverage.unproved_support): absence of a finding is no guarantee. '
             '"Bounded time/memory" is a watchdog observation, never a theorem. The proved part is totality of the modelled parsers (C03 models) '
             'and engine-level confinement. Trusted: Lean kernel; the Go harness (c02gen), its canonical-name table and its process model; '
@@ -45,9 +51,9 @@ META = {
 }
 
 # ---------------------------------------------------------------------------------------------------------------
-# HOOK for the coordinator: engine-level confinement theorems (C02_confined / C02_no_recover) and the modules that
+# HOOK for the coordinator: engine-level confinement theorems (C02_confined_benign / C02_no_recover) and the modules that
 # have to be imported for the axiom audit to see them. Both lists are appended below; leave empty until they exist.
-ENGINE_THEOREMS = ['Scalibr.Walk.C02_confined', 'Scalibr.Walk.C02_confined_two', 'Scalibr.Walk.C02_panic_only_from_extractor']
+ENGINE_THEOREMS = ['Scalibr.Walk.C02_confined_benign', 'Scalibr.Walk.C02_confined_two_benign', 'Scalibr.Walk.C02_panic_only_from_extractor']
 ENGINE_IMPORTS = ['Scalibr.Properties.C02Engine']
 # ---------------------------------------------------------------------------------------------------------------
 
@@ -100,17 +106,27 @@ def msg_kind(msg):
 
 def finding_key(case, f):
     """class predicate of a violation -> the key used in known_findings.txt:
-         panic / fatal : (extractor, failure kind, normalised message kind)
+         panic / fatal : (extractor, failure kind, normalised message kind, panicking function)
          hang / oom    : (extractor, failure kind, decoder library the extractor called into = outermost third-party frame)
          engine-panic / engine-hang / engine-err / nilpkg : Extract returned normally but the real filesystem.Run, fed with that very result,
                          panicked / did not return / failed, or the result carries a nil package (keyed like panic)
-    so a NEW crash of the same extractor with another signature (another message kind, another library) is still a VIOLATION.
-    The exact panic site is NOT part of the class: a corrupt BoltDB faults wherever the mmap is touched first."""
+         limit         : configured-limits stream (`lim …` cases): (extractor, limit kind, shape)
+    so a NEW crash of the same extractor with another signature (another message kind, another library, ANOTHER SITE) is still a VIOLATION.
+    The panicking FUNCTION is part of the class (AUDIT-2 finding 16: without it every index-out-of-range of an extractor that already has a
+    known class was absorbed): `at-<function>` = the frame that panicked (own or third-party code), without its package path. Exception: a
+    fault in mmap'ed memory (fatal, "fault address") happens wherever a corrupt BoltDB page is touched first, so that class is keyed by the
+    extractor function that entered the decoder (`via-<function>`)."""
     ext = (case.split(' ') + ['?', '?'])[1]
     st = f.get('st', '?')
     parts = [ext.replace('/', '-'), st]
     if st in ('panic', 'fatal', 'engine-panic', 'engine-err'):
-        parts.append(msg_kind(_unhex(f.get('msg'))))
+        kind = msg_kind(_unhex(f.get('msg')))
+        parts.append(kind)
+        fn = lambda x: _slug(re.sub(r'^.*/', '', _unhex(x)))[:60]
+        if kind == 'fault-address' and f.get('via'):
+            parts.append('via-' + fn(f.get('via')))
+        elif f.get('at'):
+            parts.append('at-' + fn(f.get('at')))
     elif st in ('hang', 'oom'):
         # where a hung / allocating goroutine happens to be SAMPLED is timing-dependent: the class is the third-party decoder library if the
         # sample fell inside one, and `own` if it fell into the extractor's own code or the standard library called from it (or nowhere)
@@ -176,6 +192,8 @@ class _Judge:
         self.bad = []
         self.not_required = 0
         self.regressions_ok = 0
+        self.engine_replays = 0   # cases whose (inventory, error) pair was replayed through the real filesystem.Run
+        self.vacuous_engine = []  # … in which the engine made NO Extract call although FileRequired accepted the path: the replay proved nothing
         self.unrun = {}      # extractor -> why -> cases the generator did not run (hang breaker / per-extractor budget / run deadline)
 
     def row(self, case, reply, origin):
@@ -188,6 +206,10 @@ class _Judge:
             ctx.samples.append({'case': case[:400], 'impl': reply[:300], 'origin': origin})
         if f.get('dl') == '1':
             self.deadline += 1
+        if 'ec' in f:
+            self.engine_replays += 1
+            if f.get('req') == '1' and st in ('ok', 'err') and f.get('ec') == '0':
+                self.vacuous_engine.append(case[:300] + '\t' + reply[:200])
         if st == 'stale':
             self.stale += 1
         elif st == 'badcase':
@@ -212,6 +234,9 @@ class _Judge:
             f = lib.fields(rows[0].split('\t')[1])
             ctx.violation('%s  [class %s, %d case(s); not listed in known_findings.txt]' % (describe(rows[0].split('\t')[0], f), key, len(rows)),
                           rows[:3], name=_slug(key.replace('C02/', '')))
+        if self.vacuous_engine:
+            ctx.violation('HARNESS FAULT (not a finding about /repo): the engine replay of %d case(s) made no Extract call (ec=0) although FileRequired accepted the path: '
+                          'the engine-panic / engine-err / nilpkg verdicts of those cases are vacuous' % len(self.vacuous_engine), self.vacuous_engine[:3], found_input=False, name='harness-engine-replay')
         if self.bad:
             ctx.notes.append('%d case line(s) could not be run (harness said badcase): %s' % (len(self.bad), '; '.join(self.bad[:3])))
         if self.stale:
@@ -219,14 +244,102 @@ class _Judge:
 
 
 def _split_replay(path):
-    """a C02 replay file may hold c02gen lines (`x <extractor> ...`) and c03gen lines (`<format> <hex> ...`)"""
+    """a C02 replay file may hold c02gen lines (`x <extractor> ...`), c03gen lines (`<format> <hex> ...`) and configured-limits lines (`lim <extractor> ...`)"""
     fuzz, modelled = [], []
     for l in open(path):
         l = l.rstrip('\n')
-        if not l or l.startswith('#'):
+        if not l or l.startswith('#') or l.startswith('lim '):
             continue
         (fuzz if l.startswith('x ') else modelled).append(l.split('\t')[0])
     return fuzz, modelled
+
+
+def _limit_lines(path):
+    return [l.rstrip('\n').split('\t')[0] for l in open(path) if l.startswith('lim ')]
+
+
+ENGINE_N = {'quick': 2000, 'thorough': 30000}
+
+
+def engine_stream(ctx):
+    """The ENGINE half of C02 ("a failing or panicking extractor is confined: the scan completes and the other extractors are unaffected"): the theorems
+    C02_confined / C02_panic_only_from_extractor are about the walk-engine model; this ties that model to scalibr.Scan on configurations whose table-driven
+    extractors return packages, errors and PANICS (walkgen -mode mixed, the stream of C01 / C09): implementation and model must agree on scan error, visits,
+    Extract calls, packages and per-extractor statuses (COMPARE), the scan may panic only if an extractor does, and in benign configurations the calls are the owed ones."""
+    before = len(ctx.mismatches)
+
+    def oracle(case, fi, fm):
+        if fi.get('err') == 'panic' and not any(t.split('=')[1][1:2] == '1' for t in case.split(' ')[7].split(';') if '=' in t):
+            return 'the scan panicked although no extractor panics'
+        return W.oracle_calls(case, fi, fm)
+    seen = {'n': 0, 'with_failing_extractor': 0, 'with_panicking_extractor': 0}
+
+    def cls(case, fi, fm):
+        seen['n'] += 1
+        flags = [t.split('=')[1][:2] for t in case.split(' ')[7].split(';') if '=' in t]
+        if any(f[:1] == '1' for f in flags):
+            seen['with_failing_extractor'] += 1
+        if any(f[1:2] == '1' for f in flags):
+            seen['with_panicking_extractor'] += 1
+        return 'engine err=%s' % fi.get('err')
+    W.run_stream(ctx, 'mixed', ENGINE_N[ctx.tier], oracle, classify=cls)
+    ctx.extra['engine_half'] = dict(seen, tie='walkgen -mode mixed + drv_walk: implementation = model on %s' % ', '.join(W.COMPARE),
+                                    mismatches=len(ctx.mismatches) - before,
+                                    note='the same stream (larger) is the correspondence evidence of C01 / C09, whose theorems C02_confined and C02_panic_only_from_extractor build on')
+
+
+def limits_stream(ctx, replay_lines=None):
+    """The extractors' OWN budget options run with small configured values (harness/cmd/c02gen/limits.go): java/archive MaxOpenedBytes / MaxZipDepth against
+    compression bombs shaped to each code path, MaxFileSizeBytes of every extractor that has it. A budget that is not enforced is a violation even far below the
+    512 MiB bound of the fuzz stream: (a) the documented limit error is (not) returned, (b) cumulative allocation <= 16 x limit + 8 MiB."""
+    binary = ctx.go_build('c02gen')
+    if binary is None:
+        return
+    args = ['-limits', '-tier', ctx.tier]
+    tmp = None
+    if replay_lines is not None:
+        tmp = os.environ.get('TMPDIR', '/var/tmp') + '/.replay-%s-limits.txt' % ctx.prop
+        with open(tmp, 'w') as fh:
+            fh.write('\n'.join(replay_lines) + '\n')
+        args += ['-replay', tmp]
+    rows, ok, _ = run_gen_partial(ctx, binary, args, 600)
+    if tmp:
+        os.remove(tmp)
+    by = {}
+    new = {}
+    meta = None
+    for case, reply in rows:
+        if case == '#limits':
+            meta = json.loads(reply)
+            continue
+        f = lib.fields(reply)
+        st = f.get('st', '?')
+        t = case.split(' ')
+        kv = dict(x.split('=', 1) for x in t[3:] if '=' in x)
+        ctx.add_case(case, nontrivial=(st in ('ok', 'viol') and t[2] != 'filesize' and f.get('want') == '1'), cls='limits/%s %s' % (t[2], st))
+        by['%s %s' % (t[2], st)] = by.get('%s %s' % (t[2], st), 0) + 1
+        if replay_lines is not None:
+            print('replay (limits): %s\t%s%s' % (case, reply[:300], ('   <- ' + _unhex(f.get('what'))) if f.get('what') else ''))
+        if st in ('viol', 'panic', 'hang'):
+            key = 'C02/%s-limit-%s-%s' % (t[1].replace('/', '-'), t[2], _slug(kv.get('shape', st)))
+            desc = '%s with small configured limits (%s): %s' % (t[1], ' '.join(t[3:]), _unhex(f.get('what')) or _unhex(f.get('msg')) or st)
+            if not ctx.known_finding(key, desc):
+                new.setdefault(key, []).append((case + '\t' + reply, desc))
+        elif st == 'badcase':
+            ctx.notes.append('limits stream: bad case ' + case)
+    for key, items in sorted(new.items()):
+        ctx.violation('%s  [class %s, %d case(s)]' % (items[0][1], key, len(items)), [x[0] for x in items[:3]], name=_slug(key.replace('C02/', '')))
+    if not ok or (replay_lines is None and meta is None):
+        ctx.violation('HARNESS FAULT (not a finding about /repo): c02gen -limits failed: ' + '; '.join(ctx.notes[-1:]), ['# see notes'], found_input=False, name='harness-limits')
+    if replay_lines is None:
+        ctx.extra['configured_limits'] = {'cases_by_kind_and_status': by, 'table_vs_source': meta,
+                                          'asserted': '(a) java/archive: error Is ErrExtractorMemoryLimitExceeded exactly when the reference accounting of the documented budget over the abstract archive tree exceeds MaxOpenedBytes; '
+                                                      'depth error exactly when nesting exceeds MaxZipDepth; every extractor with MaxFileSizeBytes: FileRequired accepts a file of exactly the limit and refuses one byte more; '
+                                                      '(b) java/archive: runtime TotalAlloc delta of Extract <= 16 x MaxOpenedBytes + 8 MiB',
+                                          'not_covered': 'os/rpm Timeout, containers/containerd MaxMetaDBFileSize (linux build only), filesystem.Config MaxInodes / MaxFileSize (engine, C10)'}
+        if meta and meta.get('size_limited_in_table') != meta.get('packages_with_MaxFileSizeBytes_in_source'):
+            ctx.notes.append('limits stream: %s packages declare MaxFileSizeBytes in /repo, the harness table has %s: update harness/cmd/c02gen/limits.go' % (
+                meta.get('packages_with_MaxFileSizeBytes_in_source'), meta.get('size_limited_in_table')))
 
 
 def modelled_stream(ctx, replay_lines=None):
@@ -360,6 +473,7 @@ def stream(ctx):
         ctx.notes.append('%d generated case(s) were NOT run: %s (hangs = remaining cases of an extractor after %d hangs at the same stack top; budget = per-extractor '
                          'wall budget %d s; deadline = run deadline %d s). The hangs themselves are reported with their inputs.' % (
                              nun, json.dumps(judge.unrun, sort_keys=True), MAX_HANGS, EXT_BUDGET[ctx.tier], GEN_DEADLINE[ctx.tier]))
+    ctx.extra['engine_replays'] = {'cases_replayed_through_filesystem_Run': judge.engine_replays, 'with_zero_Extract_calls': len(judge.vacuous_engine)}
     ctx.extra['deadline_cases'] = judge.deadline
     ctx.extra['cases_path_not_accepted'] = judge.not_required
     ctx.extra['regression_witnesses_ok'] = judge.regressions_ok
@@ -389,7 +503,7 @@ def run(ctx):
                    'Go runtime: recover(), runtime/metrics heap accounting, debug.SetMemoryLimit, process exit status of a crashed worker',
                    '/repo/**/testdata as seed corpus (read by the harness, copied into temp roots; never opened in place by an extractor)',
                    'third-party decoders are NOT modelled: encoding/json, BurntSushi/toml, yaml.v3, encoding/xml, go-rpmdb (+sqlite), bbolt, debug/pe|elf|macho, archive/zip, spdx/cyclonedx readers']
-    ctx.assumptions = ['INTERFACE ASSUMPTION of the engine theorems (C02_panic_only_from_extractor, C02_confined): the walk-engine model takes an Extract result to be a list of '
+    ctx.assumptions = ['INTERFACE ASSUMPTION of the engine theorems (C02_panic_only_from_extractor, C02_confined_benign): the walk-engine model takes an Extract result to be a list of '
                        'package ids; that the real result is well formed for the engine (no nil element in Inventory.Packages, nothing runExtractor / Inventory.Append / the status code '
                        'dereferences is missing) is modelled, not verified — it is CHECKED on every case by replaying the returned (inventory, error) through the real filesystem.Run '
                        '(st=engine-panic | engine-hang | engine-err | nilpkg are violations)',
@@ -407,7 +521,7 @@ def run(ctx):
                 'modelled/<fmt> = c03gen malformed inputs of the five line formats run on implementation and Lean model (pk must agree). '
                 'non-trivial = FileRequired accepted the path AND Extract returned at least one package (the parser got far enough to produce output); distinct = distinct case lines. '
                 'distribution key = "<mutation class> <status>"') % (MUTATIONS['quick'], MUTATIONS['thorough'])
-    ctx.lean_build(['Scalibr.Properties.C02'] + ENGINE_IMPORTS + ['drv_c03'])
+    ctx.lean_build(['Scalibr.Properties.C02'] + ENGINE_IMPORTS + ['drv_c03', 'drv_walk'])
     proofs_ok = ctx.audit(['Scalibr.Properties.C02'] + ENGINE_IMPORTS, THEOREMS)
     if ctx.tier == 'thorough':
         for mod in ['Scalibr.Properties.C02'] + ENGINE_IMPORTS:
@@ -416,8 +530,13 @@ def run(ctx):
         _, modelled_lines = _split_replay(ctx.replay)
         if modelled_lines:
             modelled_stream(ctx, modelled_lines)
+        lim_lines = _limit_lines(ctx.replay)
+        if lim_lines:
+            limits_stream(ctx, lim_lines)
     else:
-        corp_modelled = [l for l in lib.corpus_lines(ctx.prop) if not l.startswith('x ')]
+        limits_stream(ctx)
+        engine_stream(ctx)
+        corp_modelled = [l for l in lib.corpus_lines(ctx.prop) if not l.startswith('x ') and not l.startswith('lim ')]
         if corp_modelled:
             modelled_stream(ctx, corp_modelled)
         modelled_stream(ctx)
